@@ -1038,6 +1038,14 @@ class ModelBuilder:
                         end_date = start_date
                     project["end"] = end_date
 
+            # The time frame needs both ends: without a usable "+<duration>" (days, weeks,
+            # months or years) the project has no end, and limits and effort tasks would
+            # fail later with a TypeError
+            if project["end"] is None:
+                raise ValueError(
+                    "Project header needs a time frame: project <id> <name> <start date> +<duration in d, w, m or y>"
+                )
+
         # Apply project attributes
         self._apply_project_attributes(project, proj_data.get("attributes", []))
 
